@@ -102,7 +102,7 @@ def run(F, R, tier):
         fn = REL + "::" + name
         if not r2.anchor(F.hir(fn), fn):
             continue
-        tab = SR.Table(F, fn, opaque=r"is_valid_url_segment$|alloc::fmt::format$", rule=r2)
+        tab = SR.Table(F, fn, opaque=r"is_valid_url_segment$", rule=r2)
         VAL = ("payload", SR.param("value"), "Some", 0)
         n_set = 0
         for q in tab.paths:
@@ -138,9 +138,9 @@ def run(F, R, tier):
                 stripped = ("payload", ("call", "str::strip_prefix", (VAL, ("lit", delim))), "Some", 0)
                 sv = q.variant.get(("call", "str::strip_prefix", (VAL, ("lit", delim))))
                 r2.require((sv == "Some" and st == stripped) or (sv == "None" and st == VAL), (fn, "delimiter"), "%s does not normalise the leading '%s' (validated %s)" % (name, delim, sym.fmt(st)))
-                tmpl = ("list", ("lit", 1), ("lit", ord(delim)), ("lit", 192), ("lit", 0))
-                fm = [x for x in sym.subterms(sym.term(stored)) if isinstance(x, tuple) and x[:1] == ("call",) and x[1].endswith("Arguments::new")]
-                r2.require(any(len(x[2]) == 2 and x[2][0] == tmpl and SR.derives(x[2][1], st) for x in fm), (fn, "stored-form"), "%s does not store the value as '%s' + validated segment" % (name, delim))
+                # the stored text is exactly delimiter ++ validated segment (format!, push_str or join all give the same term)
+                cc = [x for x in sym.subterms(sym.term(stored)) if isinstance(x, tuple) and x[:1] == ("concat",)]
+                r2.require(any(len(x[1]) == 2 and x[1][0] == ("lit", delim) and x[1][1][0] == "arg" and SR.pure(x[1][1][1], st) for x in cc), (fn, "stored-form"), "%s does not store the value as '%s' + validated segment: %s" % (name, delim, sym.fmt(sym.term(stored))[:100]))
         r2.site("%s: self.%s = validated(value)?  predicate %s; %d storing path(s), rejected calls leave the field untouched" % (name, field, pred, n_set))
         r2.require(n_set > 0 or not tab.paths, (fn, "write"), "%s: no path stores a value" % name)
     # who writes the three fields
